@@ -542,6 +542,55 @@ Definition compose_m (fuel : nat) (ic : itecache) (f : sdd) (lbl : var) (g : sdd
   bind (and_m fuel (fst r) f) (fun a =>
   bind (exists_m fuel a lbl) (fun e => Ok (e, snd r)))).
 
+(* ---- SddBuilder::compile_cnf (builder/sdd/builder.rs).  A CNF is cnf.clauses(): a list of
+   clauses, a clause a list of (label, polarity) -- the types [clause]/[cnf] of Model/Compile.v.
+   The clause order after cnf_sorted.sort_by(..) is NOT determined by the code (the comparator is
+   not a total order, so the result depends on the sorting algorithm): the model takes the
+   sorted vector as an argument, any permutation of the clauses. ---- *)
+Definition lit := (var * bool)%type.
+
+(* let mut bdd = Var(lit_vec[0]); for lit in lit_vec { bdd = self.or(bdd, Var(lit)) } *)
+Definition clause_m (fuel : nat) (c : list lit) : res sdd :=
+  match c with
+  | [] => Panic                                   (* lit_vec[0] on an empty clause *)
+  | (v, p) :: _ =>
+    fold_left (fun acc l => bind acc (fun b => or_m fuel b (SVar (fst l) (snd l)))) c (Ok (SVar v p))
+  end.
+Fixpoint clauses_m (fuel : nat) (cs : list (list lit)) : res (list sdd) :=
+  match cs with
+  | [] => Ok []
+  | c :: r => bind (clause_m fuel c) (fun x => bind (clauses_m fuel r) (fun xs => Ok (x :: xs)))
+  end.
+
+(* SddBuilder::compile_cnf_helper: balanced conjunction, split_at(len / 2); [hf] is the fuel of
+   this recursion only (length + 1 suffices) *)
+Fixpoint cnf_helper (fuel : nat) (hf : nat) (vec : list sdd) : res (option sdd) :=
+  match hf with
+  | O => OutOfFuel
+  | S hf' =>
+    match vec with
+    | [] => Ok None
+    | [x] => Ok (Some x)
+    | _ =>
+      let k := Nat.div2 (length vec) in
+      bind (cnf_helper fuel hf' (firstn k vec)) (fun sub_l =>
+      bind (cnf_helper fuel hf' (skipn k vec)) (fun sub_r =>
+      match sub_l, sub_r with
+      | None, None => Ok None
+      | Some v, None | None, Some v => Ok (Some v)
+      | Some l, Some r => bind (and_m fuel l r) (fun x => Ok (Some x))
+      end))
+    end
+  end.
+
+Definition compile_cnf_m (fuel : nat) (clauses sorted : list (list lit)) : res sdd :=
+  if Nat.eqb (length clauses) 0 then Ok ST
+  else if existsb (fun c : list lit => Nat.eqb (length c) 0) clauses then Ok SF
+  else
+    bind (clauses_m fuel sorted) (fun cvec =>
+    bind (cnf_helper fuel (S (length cvec)) cvec) (fun r =>
+    match r with None => Ok ST | Some x => Ok x end)).
+
 (* ---- operation programs over a pool of results ---- *)
 Inductive sop :=
 | OTrue | OFalse
@@ -551,7 +600,8 @@ Inductive sop :=
 | OIte (i j k : nat)
 | OCond (i : nat) (v : var) (b : bool)
 | OExists (i : nat) (v : var)
-| OCompose (i : nat) (v : var) (j : nat).
+| OCompose (i : nat) (v : var) (j : nat)
+| OCnf (clauses sorted : list (list (var * bool))).   (* compile_cnf; [sorted] = the vector after sort_by *)
 
 Definition pget (pool : list sdd) (i : nat) : sdd := nth i pool SF.
 
@@ -572,6 +622,7 @@ Definition step_m (fuel : nat) (st : list sdd * itecache) (o : sop) : res (list 
   | OCond i v b => push (condition_m fuel (pget pool i) v b)
   | OExists i v => push (exists_m fuel (pget pool i) v)
   | OCompose i v j => push2 (compose_m fuel ic (pget pool i) v (pget pool j))
+  | OCnf f sorted => push (compile_cnf_m fuel f sorted)
   end.
 
 Fixpoint run_m (fuel : nat) (st : list sdd * itecache) (ops : list sop) : res (list sdd * itecache) :=
